@@ -7,6 +7,9 @@ pub mod c03;
 pub mod c04;
 pub mod c06;
 pub mod c07;
+pub mod c08;
+pub mod c09;
+pub mod c13;
 pub mod c12;
 
 #[derive(Clone, Copy, PartialEq, Eq, Debug)]
@@ -33,7 +36,10 @@ pub fn checks(id: &str, tier: Tier) -> Option<Vec<Check>> {
         "C04" => Some(c04::checks(tier)),
         "C06" => Some(c06::checks(tier)),
         "C07" => Some(c07::checks(tier)),
+        "C08" => Some(c08::checks(tier)),
+        "C09" => Some(c09::checks(tier)),
         "C12" => Some(c12::checks(tier)),
+        "C13" => Some(c13::checks(tier)),
         _ => None,
     }
 }
